@@ -67,6 +67,11 @@ def run(repo, rep, tier):
     # the Open/Pull variants can be continued: each Open registers its
     # context under the pull kind DSP0200 pairs it with
     shadow_writes_follow_all_checks(repo, rep)
+    from .c10 import store_writes_keyed_by_object
+    store_writes_keyed_by_object(repo, rep, rep.rule(
+        'C13.R14', 'every stored copy of an association instance carries '
+        'the path it is stored under'),
+        files=['pywbem_mock/_instancewriteprovider.py'], floor=3)
     from .c14 import pull_kinds_rule
     pull_kinds_rule(repo, rep, rep.rule(
         'C13.R12', 'an Open...() result can be continued by its Pull '
